@@ -1,7 +1,8 @@
 #!/bin/bash
-# developer tool: all quick checks, N at a time (a loaded machine must not make a check raise an alarm)
+# developer tool: all checks of a tier, N at a time (a loaded machine must not make a check raise an alarm)
+# usage: tools/parallel.sh [N] [seed] [tier] [keep]   - with `keep` the evidence written is left in place
 cd "$(dirname "$0")/.."
-n=${1:-4}; seed=${2:-1}
+n=${1:-4}; seed=${2:-1}; tier=${3:-quick}
 python3 -c "import json;print('\n'.join(c['property_id'] for c in json.load(open('MANIFEST.json'))['checks']))" | \
-  xargs -P $n -I{} sh -c 's=$(date +%s); out=$(./check {} --tier quick --seed '$seed' 2>/dev/null); rc=$?; echo "{} rc=$rc $(( $(date +%s) - s ))s $(echo "$out" | grep VIOLATION)"'
-git checkout -- evidence
+  xargs -P $n -I{} sh -c 's=$(date +%s); out=$(./check {} --tier '$tier' --seed '$seed' 2>/dev/null); rc=$?; echo "{} rc=$rc $(( $(date +%s) - s ))s $(echo "$out" | grep VIOLATION)"'
+[ "$4" = keep ] || git checkout -- evidence
